@@ -463,3 +463,57 @@ Fixpoint run (s : heap) (h : list op) : heap * list out :=
   | o :: h' => let '(s1, x) := step s o in let '(s2, xs) := run s1 h' in (s2, x :: xs)
   end.
 End Step.
+
+(* ------------------------------------------------------------------------
+   Specification vocabulary (used by the theorem statements in Props/). *)
+
+(* "h is the hash of node n computed from scratch from the current
+   structure": no cache is consulted; a cyclic structure has no derivation. *)
+Section Spec.
+Variable NH : bytes -> list entry -> bytes.
+
+Inductive Fresh (s : heap) : nat -> bytes -> Prop :=
+| Fresh_node : forall n x es,
+    nth_error s n = Some x -> FreshKids s (kids x) es -> Fresh s n (NH (data x) es)
+with FreshKids (s : heap) : list (bytes * nat) -> list entry -> Prop :=
+| FK_nil : FreshKids s [] []
+| FK_cons : forall name k kd h ks es,
+    nth_error s k = Some kd -> Fresh s k h -> FreshKids s ks es ->
+    FreshKids s ((name, k) :: ks) ((name, data kd, h) :: es).
+End Spec.
+
+Local Open Scope nat_scope.
+(* m is a child of n *)
+Definition edge (s : heap) (n m : nat) : Prop :=
+  exists x name, nth_error s n = Some x /\ In (name, m) (kids x).
+(* m is in the subtree (sub-DAG) rooted at n *)
+Inductive Reach (s : heap) : nat -> nat -> Prop :=
+| Reach_refl : forall n, n < length s -> Reach s n n
+| Reach_step : forall n k m, edge s n k -> Reach s k m -> Reach s n m.
+
+(* trees and DAGs: some rank decreases along every child edge (the bound
+   costs nothing: the longest-path rank of a DAG is below its node count) *)
+Definition ranked (rank : nat -> nat) (s : heap) : Prop :=
+  (forall n m, edge s n m -> rank m < rank n) /\ (forall n, rank n <= length s).
+Definition acyclic (s : heap) : Prop := exists rank, ranked rank s.
+
+Definition plain (key : bytes) : Prop := key <> [] /\ ~ In SLASH key.
+
+Section Guards.
+Variable NH : bytes -> list entry -> bytes.
+Variable by_id : bool.
+(* guard of one operation: the structure stays a DAG; a bulk update is given a
+   dict (distinct keys) of plain names and existing nodes *)
+Definition guard (s : heap) (o : op) : Prop :=
+  acyclic (fst (step NH by_id s o)) /\
+  match o with
+  | OUpdate p l => NoDup (map fst l) /\ forall name c, In (name, c) l -> plain name /\ c < length s
+  | _ => True
+  end.
+Fixpoint guarded (s : heap) (h : list op) : Prop :=
+  match h with
+  | [] => True
+  | o :: h' => guard s o /\ guarded (fst (step NH by_id s o)) h'
+  end.
+Definition final (s : heap) (h : list op) : heap := fst (run NH by_id s h).
+End Guards.
